@@ -136,71 +136,7 @@ func checkC18(w *World, r *Run) {
 	}
 
 	// GetPart variants
-	for _, name := range []string{"GetPart", "getPartTxFree"} {
-		fn := w.SSAFunc(relPartOutbox, "outboxPartStore."+name)
-		if fn == nil {
-			r.Anchor(ruleGet, "outboxPartStore."+name)
-			continue
-		}
-		var lookups []*ssa.Call
-		allInstrs(fn, false, func(_ *ssa.Function, ins ssa.Instruction) {
-			if c, ok := ins.(*ssa.Call); ok && c.Call.IsInvoke() && c.Call.Method.Name() == "FindLastPartOutboxEntryByPartId" {
-				lookups = append(lookups, c)
-			}
-		})
-		partParam := fn.Params[len(fn.Params)-1]
-		okLookup := len(lookups) == 1 && sameValue(lookups[0].Call.Args[len(lookups[0].Call.Args)-1], partParam)
-		r.Check(okLookup, ruleGet, "(*outboxPartStore)."+name+" looks up the latest entry of the requested part id", fn.Pos(), "FindLastPartOutboxEntryByPartId(.., partId)", "the latest-entry lookup is missing or does not use the requested part id")
-		if !okLookup {
-			continue
-		}
-		var entry ssa.Value
-		for _, ref := range *lookups[0].Referrers() {
-			if e, ok := ref.(*ssa.Extract); ok && e.Index == 0 {
-				entry = e
-			}
-		}
-		// inner GetPart only on entry == nil
-		n := 0
-		allInstrs(fn, false, func(_ *ssa.Function, ins ssa.Instruction) {
-			c, ok := ins.(ssa.CallInstruction)
-			if !ok || !c.Common().IsInvoke() || c.Common().Method.Name() != "GetPart" || !derivesFromField(c.Common().Value, "innerPartStore") {
-				return
-			}
-			n++
-			good := false
-			for _, f := range factsAt(c.Block()) {
-				if f.Kind == IsNil && sameValue(f.Val, entry) {
-					good = true
-				}
-			}
-			r.Check(good, ruleGet, "(*outboxPartStore)."+name+" → innerPartStore.GetPart", posOf(c), "only when no outbox entry exists", "the inner store is read although an outbox entry for the part may exist: a committed newer put/delete is ignored")
-		})
-		if n == 0 {
-			r.Bad(ruleGet, "(*outboxPartStore)."+name+" → innerPartStore.GetPart", fn.Pos(), "no fallback to the inner store found (anchor lost)")
-		}
-		// ErrPartNotFound under Operation == DeletePart
-		delOK := false
-		for _, ret := range returnsOf(fn) {
-			ei := errorResultIndex(fn)
-			if ei < 0 {
-				continue
-			}
-			v := retResult(ret, ei)
-			if ld, ok := stripConv(v).(*ssa.UnOp); ok {
-				if g, ok := ld.X.(*ssa.Global); ok && g.Name() == "ErrPartNotFound" {
-					for _, f := range factsAt(ret.Block()) {
-						if f.Kind == EqConst {
-							if n, _ := fieldLoadName(f.Val); n == "Operation" {
-								delOK = true
-							}
-						}
-					}
-				}
-			}
-		}
-		r.Check(delOK, ruleGet, "(*outboxPartStore)."+name+" answers not-found for a pending delete", fn.Pos(), "ErrPartNotFound under lastEntry.Operation == DeletePartOperation", "a pending delete does not hide the part: a deleted part stays readable until the worker flushes")
-	}
+	checkPartOutboxGetPart(w, r, ruleGet, []string{"GetPart", "getPartTxFree"})
 
 	// GetPartIds
 	if fn := w.SSAFunc(relPartOutbox, "outboxPartStore.GetPartIds"); fn != nil {
@@ -298,4 +234,76 @@ func checkC18(w *World, r *Run) {
 	}
 	checkOutboxSQL(w, r, ruleSQL, stmts, "partoutboxentry", "part_outbox_entries")
 	r.NotCovered("interleavings of writers, readers and workers; lease expiry between replay and finalize (at-least-once replay relies on idempotent inner stores); the mid-stream fallback of lazyOutboxChunkReadCloser to the inner store")
+}
+
+// checkPartOutboxGetPart: the read paths of the outbox part store answer from the latest
+// outbox entry of the part: the inner store only when there is none, not-found when the latest
+// entry is a pending delete.
+func checkPartOutboxGetPart(w *World, r *Run, ruleGet string, names []string) {
+	for _, name := range names {
+		fn := w.SSAFunc(relPartOutbox, "outboxPartStore."+name)
+		if fn == nil {
+			r.Anchor(ruleGet, "outboxPartStore."+name)
+			continue
+		}
+		var lookups []*ssa.Call
+		allInstrs(fn, false, func(_ *ssa.Function, ins ssa.Instruction) {
+			if c, ok := ins.(*ssa.Call); ok && c.Call.IsInvoke() && c.Call.Method.Name() == "FindLastPartOutboxEntryByPartId" {
+				lookups = append(lookups, c)
+			}
+		})
+		partParam := fn.Params[len(fn.Params)-1]
+		okLookup := len(lookups) == 1 && sameValue(lookups[0].Call.Args[len(lookups[0].Call.Args)-1], partParam)
+		r.Check(okLookup, ruleGet, "(*outboxPartStore)."+name+" looks up the latest entry of the requested part id", fn.Pos(), "FindLastPartOutboxEntryByPartId(.., partId)", "the latest-entry lookup is missing or does not use the requested part id")
+		if !okLookup {
+			continue
+		}
+		var entry ssa.Value
+		for _, ref := range *lookups[0].Referrers() {
+			if e, ok := ref.(*ssa.Extract); ok && e.Index == 0 {
+				entry = e
+			}
+		}
+		// inner GetPart only on entry == nil
+		n := 0
+		allInstrs(fn, false, func(_ *ssa.Function, ins ssa.Instruction) {
+			c, ok := ins.(ssa.CallInstruction)
+			if !ok || !c.Common().IsInvoke() || c.Common().Method.Name() != "GetPart" || !derivesFromField(c.Common().Value, "innerPartStore") {
+				return
+			}
+			n++
+			good := false
+			for _, f := range factsAt(c.Block()) {
+				if f.Kind == IsNil && sameValue(f.Val, entry) {
+					good = true
+				}
+			}
+			r.Check(good, ruleGet, "(*outboxPartStore)."+name+" → innerPartStore.GetPart", posOf(c), "only when no outbox entry exists", "the inner store is read although an outbox entry for the part may exist: a committed newer put/delete is ignored")
+		})
+		if n == 0 {
+			r.Bad(ruleGet, "(*outboxPartStore)."+name+" → innerPartStore.GetPart", fn.Pos(), "no fallback to the inner store found (anchor lost)")
+		}
+		// ErrPartNotFound under Operation == DeletePart
+		delOK := false
+		for _, ret := range returnsOf(fn) {
+			ei := errorResultIndex(fn)
+			if ei < 0 {
+				continue
+			}
+			v := retResult(ret, ei)
+			if ld, ok := stripConv(v).(*ssa.UnOp); ok {
+				if g, ok := ld.X.(*ssa.Global); ok && g.Name() == "ErrPartNotFound" {
+					for _, f := range factsAt(ret.Block()) {
+						if f.Kind == EqConst {
+							if n, _ := fieldLoadName(f.Val); n == "Operation" {
+								delOK = true
+							}
+						}
+					}
+				}
+			}
+		}
+		r.Check(delOK, ruleGet, "(*outboxPartStore)."+name+" answers not-found for a pending delete", fn.Pos(), "ErrPartNotFound under lastEntry.Operation == DeletePartOperation", "a pending delete does not hide the part: a deleted part stays readable until the worker flushes")
+	}
+
 }
